@@ -82,6 +82,9 @@ def run(rep):
         short = [n for n in gitable if len(n) <= 2 or (n.startswith(b"x/") and len(n) <= 4)]
         rest = [n for n in gitable if n not in set(short)]
         gitable = short + rep.rng.sample(rest, min(len(rest), 1800))
+    elif len(gitable) > 60000:
+        # a process per name: thorough gives the binary a sample of 60 000 (the model sees every name in both tiers)
+        gitable = rep.rng.sample(gitable, 60000)
     gres = git_check_many(gitable)
     for part, m, r in zip(chunks, mres, ires):
         v = r.get("v", "") if isinstance(r, dict) else ""
